@@ -137,16 +137,20 @@ int main(int argc, char ** argv)
       c.species = sp[r.below(6)];
       c.rank = (int)r.below(7) - 1; // -1 .. 5
       bool bias_nonempty = r.below(10) < 7;
-      switch (r.below(8)) {
+      switch (r.below(10)) {
       case 0: c.theta = 0; break;                 // +z pole
       case 1: c.theta = M_PI; break;              // -z pole
       case 2: c.theta = M_PI / 2; break;
+      case 3: c.theta = M_PI / 4; break;          // axes lying in a coordinate plane (one component exactly or nearly zero)
+      case 4: c.theta = 3 * M_PI / 4; break;
       default: c.theta = std::acos(1 - 2 * r.uniform());
       }
-      switch (r.below(6)) {
+      switch (r.below(9)) {
       case 0: c.phi = M_PI; break;                // the +-pi seam
       case 1: c.phi = -M_PI; break;
       case 2: c.phi = 0; break;
+      case 3: c.phi = M_PI / 2; break;            // +y / -y: the x component of the axis vanishes
+      case 4: c.phi = -M_PI / 2; break;
       default: c.phi = -M_PI + 2 * M_PI * r.uniform();
       }
       bool rectangular = r.below(3) == 0;
